@@ -4,7 +4,7 @@
 //     script   commands of harness/common/script.hpp separated by ';' (objects are built through the public API)
 //     roots    slot numbers separated by ' ' : root k of the case lives in that slot
 //     queries  "i,j" pairs of ROOT indices separated by ' ' : roots[i]->equals(roots[j])
-//   output per case:     <one 0/1 per query> <per root: FNV-1a hash of its canonical dump, ','-separated>
+//   output per case:     <one 0/1 per query> <per root: FNV-1a hash of its canonical dump, ','-separated> <per root: 0/1 of root->equals(nullptr)>
 //   with --dumps the dumps themselves are printed instead of the hashes (';'-separated).
 // The dump walks the objects through PUBLIC GETTERS only and has the format of gen/equals_gen.py: ser(), so
 // the check can tell that the script built exactly the tree that the model is given.
@@ -212,7 +212,12 @@ static std::string runCase(const std::string &line)
         std::string d = dumpEntity(roots[k]);
         tail += gDumps ? d : fnv1a(d);
     }
-    return bits + (gDumps ? "|" : " ") + tail;
+    // x->equals(nullptr) must be false for every root
+    std::string nulls;
+    for (const auto &r : roots) {
+        nulls.push_back(r->equals(nullptr) ? '1' : '0');
+    }
+    return bits + (gDumps ? "|" : " ") + tail + (gDumps ? "|" : " ") + nulls;
 }
 
 int main(int argc, char **argv)
